@@ -71,21 +71,23 @@ type Profile struct {
 }
 
 type Gen struct {
-	T         *rapid.T
-	P         *Profile
-	vars      []*Var
-	globals   []*Var
-	fn        *fnCtx
-	ctr       int
-	budget    int
-	protected int
-	Classes   map[string]int
-	inPairs   int // inside an order-insensitive pairs body: only commutative accumulation allowed
-	noEmit    int
-	noYield   int
-	level     int
-	Sites     int // number of fault(i) sites planted so far (errors profile)
-	pure      int // > 0: generating statements that must not touch anything outside themselves
+	mtHasLen, opIsUd map[string]bool
+	opMt             map[string]string
+	T                *rapid.T
+	P                *Profile
+	vars             []*Var
+	globals          []*Var
+	fn               *fnCtx
+	ctr              int
+	budget           int
+	protected        int
+	Classes          map[string]int
+	inPairs          int // inside an order-insensitive pairs body: only commutative accumulation allowed
+	noEmit           int
+	noYield          int
+	level            int
+	Sites            int // number of fault(i) sites planted so far (errors profile)
+	pure             int // > 0: generating statements that must not touch anything outside themselves
 }
 
 func New(t *rapid.T, p *Profile) *Gen {
